@@ -118,15 +118,11 @@ class MarkerExpression(SingleMarker):
             ):
                 for _ in range(2 - dot_num):
                     pkg_version += ".0"
-            # Keep the given specifier as the cached view only when the value is
-            # its own text: a zero-padded value must derive its view from that
-            # text, otherwise two equal atoms would render merged results differently.
-            return MarkerExpression(
-                name,
-                pkg_spec.operator,
-                pkg_version,
-                _specifier=specifier if pkg_version == pkg_spec.version else None,
-            )
+            # The atom derives its specifier view from its own text: the given
+            # specifier may spell a bound the text does not show differently
+            # (5.11 vs 5.11.0), and two equal atoms would then render merged
+            # results differently.
+            return MarkerExpression(name, pkg_spec.operator, pkg_version)
         assert isinstance(specifier, GenericSpecifier)
         return MarkerExpression(
             name, specifier.op, specifier.value, _specifier=specifier
